@@ -37,8 +37,8 @@ def shape_jobs(c):
     callee = {fn_append(c): rec_append_spec(c), fn_write(c): rec_write_spec(), fn_notempty(c): nondet_bool_spec()}
     un = 'JSONUtils_UnEscape__%s_QV_GStream__%s.0:4,%s.0:5' % (c, c, fn_hex3(c))
     base = dict(unit=UNIT, fn=fn_unescape(c), roots=['Qentem::JSONUtils::UnEscape<%s, QV::GStream<%s>>' % (c, c)],
-                replace=list(callee), ghosts=GH_REC, pre=HEX_PRE, solver='cadical', timeout=900, objbits=12,
-                pre_unwindset=un, must_have=['postcondition', 'unwind'], cex_K=13, cex_unwind=16)
+                mode='harness', harness_K=13, harness_unwind=6, ghosts=GH_REC, pre=HEX_PRE, solver='cadical', timeout=900, objbits=10,
+                must_have=['assertion', 'unwind'], cex_K=13, cex_unwind=16, cex_nosplit=True, weight=2)
     # single escape  \uXXXX"
     cp1 = 'QX_HEX4(content + 2)'
     s1 = dict(buffers=[('content', 'length')], refs=['stream'],
@@ -46,7 +46,7 @@ def shape_jobs(c):
                         hexok(2), SCALAR % (cp1, cp1, cp1), 'g_n == 0 && g_slices == 0'],
               ensures=['__CPROVER_return_value == 7', 'g_slices == 0'] + utf_ensures(c, cp1),
               assigns=['g_n', 'g_u0', 'g_u1', 'g_u2', 'g_u3', 'g_slices'], loops=None)
-    j1 = dict(base, name='UnEscape<%s>.u-escape' % c, specs=dict(callee, **{fn_unescape(c): s1}),
+    j1 = dict(base, name='UnEscape<%s>.u-escape' % c, specs=dict(callee, **{fn_unescape(c): s1}), fixed={'length': 7},
               clause='\\uXXXX decodes to the standard encoding of the code point it names, both hex cases')
     # surrogate pair \uHHHH\uLLLL"
     hi, lo = 'QX_HEX4(content + 2)', 'QX_HEX4(content + 8)'
@@ -58,7 +58,7 @@ def shape_jobs(c):
                         'g_n == 0 && g_slices == 0'],
               ensures=['__CPROVER_return_value == 13', 'g_slices == 0'] + utf_ensures(c, cp2),
               assigns=['g_n', 'g_u0', 'g_u1', 'g_u2', 'g_u3', 'g_slices'], loops=None)
-    j2 = dict(base, name='UnEscape<%s>.surrogate-pair' % c, specs=dict(callee, **{fn_unescape(c): s2}),
+    j2 = dict(base, name='UnEscape<%s>.surrogate-pair' % c, specs=dict(callee, **{fn_unescape(c): s2}), fixed={'length': 13},
               clause='\\uD800-\\uDBFF followed by \\uDC00-\\uDFFF decodes to the encoding of the supplementary code point')
     return [j1, j2]
 
